@@ -513,6 +513,9 @@ PROPS["C03"] = dict(
         K("c17", "c03_line_iterator_step", desc="TranspositionTableMoveIterator::next: stops past max_depth or on a missing entry; "
           "otherwise yields (stored move, by_performing_move(current, move)), makes the successor current, advances the index",
           functions=["TranspositionTableMoveIterator::next"], timeout=2400),
+        K("c17", "c03_line_starts_at_the_root", desc="TranspositionTableAccess::iter_moves: the walk starts at the position handed in (index 0, given depth limit): its first "
+          "step yields the table's move for THAT position with that position's successor, or nothing", functions=["TranspositionTableAccess::iter_moves",
+          "TranspositionTableMoveIterator::next"], timeout=2400),
     ],
     assumptions=["table invariant: an entry stored under key k carries a move that is legal in every position hashing to k -- "
                  "established by the two insert sites of analyze_recursive (the move comes from try_as_legal_move on the position "
